@@ -37,6 +37,8 @@ type Scenario struct {
 	Script []string `json:"script"` // stanza stanza_reply stanza_herr close streamerr
 	Big    bool     `json:"big"`
 	S2S    bool     `json:"s2s"`
+	// FailClose: the transport fails the (first) write of the closing stream tag
+	FailClose bool `json:"failclose"`
 }
 
 const hdrIn = `<stream:stream from="example.net" to="me@example.net" id="123" version="1.0" xmlns="jabber:client" xmlns:stream="http://etherx.jabber.org/streams">`
@@ -205,6 +207,17 @@ func runSchedule(sc Scenario, choices []int) result {
 			what = "mixed"
 		}
 		lg.Add(vt.Ev{"ev": "write", "p": sched.Who(), "what": what, "n": len(p)})
+	}
+	if sc.FailClose {
+		armed := true
+		conn.FailWriteIf = func(p []byte) bool {
+			if armed && string(p) == "</stream:stream>" {
+				armed = false
+				lg.Add(vt.Ev{"ev": "write", "p": sched.Who(), "what": "closefail", "n": len(p)})
+				return true
+			}
+			return false
+		}
 	}
 	for _, p := range sc.Procs {
 		p := p
@@ -487,7 +500,7 @@ func main() {
 			if script == nil {
 				script = []string{}
 			}
-			t := tw.Write(vt.Ev{"procs": procs, "progs": progs, "script": script}, lastRes.evs)
+			t := tw.Write(vt.Ev{"procs": procs, "progs": progs, "script": script, "failclose": sc.FailClose}, lastRes.evs)
 			tw.Meta(vt.Ev{"scenario": sc, "choices": choices, "note": lastRes.note})
 			if len(samples) < 2 {
 				samples = append(samples, vt.Ev{"t": t, "scenario": sc, "choices": choices, "events": lastRes.evs})
